@@ -73,6 +73,11 @@ func_t: mov $0x77,%eax
   ret
 impl: mov $0x1234,%eax
   ret
+.globl lfunc_t
+.hidden lfunc_t
+.type lfunc_t,@function
+lfunc_t: mov $0x55,%eax
+  ret
 .globl ifunc_t
 .type ifunc_t,@gnu_indirect_function
 ifunc_t: lea impl(%rip),%rax
@@ -109,6 +114,7 @@ CHECK_BODY = {
     "local": "  lea exp_target(%rip),%rdx\n  cmp %rdx,%rax\n  jne fail\n",
     "global": "  lea exp_target(%rip),%rdx\n  cmp %rdx,%rax\n  jne fail\n",
     "func": "  lea func_t(%rip),%rdx\n  cmp %rdx,%rax\n  jne fail\n",
+    "lfunc": "  lea lfunc_t(%rip),%rdx\n  cmp %rdx,%rax\n  jne fail\n",
     "ifunc": "  call *%rax\n  cmp $0x1234,%eax\n  jne fail\n",
     "weak": "  test %rax,%rax\n  jne fail\n",
     "tpoff": "  mov %fs:0,%rdx\n  cmpl $0x5a5a5a5a,(%rdx,%rax)\n  jne fail\n",
@@ -136,7 +142,8 @@ def code_object(arch, check):
         return vlib.assemble(CHECK_ASM.format(body=PLAIN_BODY))
     o = g.ElfObject("aarch64")
     ret = bytes.fromhex("c0035fd6")
-    s = o.section(".text", flags=A | X, align=4, data=ret * 4)
+    s = o.section(".text", flags=A | X, align=4, data=ret * 5)
+    o.symbol("lfunc_t", section=s, value=16, size=4, type=g.STT_FUNC, vis=g.STV_HIDDEN)
     o.symbol("func_t", section=s, value=0, size=4, type=g.STT_FUNC)
     o.symbol("impl", section=s, value=4, size=4, type=g.STT_FUNC, bind=g.STB_LOCAL)
     o.symbol("ifunc_t", section=s, value=8, size=4, type=g.STT_GNU_IFUNC)
@@ -193,6 +200,139 @@ def data_object(arch, words):
     return o.to_bytes()
 
 
+# ---------------------------------------------------------------------------------------------
+# Section-kind family: >= 3 address words per section, targets of mixed kinds, in every kind of
+# section a linker treats specially. SK maps the member name to its input sections
+# (name, sh_type, extra flags, number of words). `.ctors*` / `.dtors*` input sections are merged
+# into .init_array / .fini_array by GNU ld and wild WITH THEIR WORDS REVERSED (lld keeps them as
+# .ctors / .dtors, forward); priority-suffixed sections are sorted by priority (whole input
+# sections move; each is found through its own start label).
+SHT_FINI, SHT_PREINIT = 15, 16
+SK = {
+    "data": [(".data", g.SHT_PROGBITS, 0, 5)],
+    "data.rel.ro": [(".data.rel.ro", g.SHT_PROGBITS, 0, 5)],
+    "custom": [("probe_sec", g.SHT_PROGBITS, 0, 5)],
+    "tdata": [(".tdata", g.SHT_PROGBITS, T, 5)],
+    "init_array": [(".init_array", g.SHT_INIT_ARRAY, 0, 5)],
+    "fini_array": [(".fini_array", SHT_FINI, 0, 5)],
+    "preinit_array": [(".preinit_array", SHT_PREINIT, 0, 5)],
+    "ctors": [(".ctors", g.SHT_PROGBITS, 0, 5)],
+    "dtors": [(".dtors", g.SHT_PROGBITS, 0, 5)],
+    "ctors.N": [(".ctors.200", g.SHT_PROGBITS, 0, 5), (".ctors.100", g.SHT_PROGBITS, 0, 4),
+                (".init_array.150", g.SHT_INIT_ARRAY, 0, 3), (".ctors", g.SHT_PROGBITS, 0, 3)],
+    "dtors.N": [(".dtors.5", g.SHT_PROGBITS, 0, 5), (".dtors.300", g.SHT_PROGBITS, 0, 4),
+                (".fini_array.7", SHT_FINI, 0, 3), (".fini_array", SHT_FINI, 0, 3)],
+    "init_array.N": [(".init_array.300", g.SHT_INIT_ARRAY, 0, 5),
+                     (".init_array.5", g.SHT_INIT_ARRAY, 0, 4),
+                     (".init_array", g.SHT_INIT_ARRAY, 0, 3)],
+}
+SK_EXE_ONLY = ("preinit_array",)
+SK_NATIVE = ("data", "data.rel.ro", "custom")      # the loader would *call* init/fini slots
+SK_TARGETS = ["lfunc", "func", "ifunc", "weak", "local"]
+SK_ROTATIONS = (0, 2)
+
+
+def is_sk(words):
+    return bool(words) and words[0] == "sk"
+
+
+def sk_targets(words, j, n):
+    """Target kinds of the n words of input section j, in input order."""
+    rot = words[2] + j
+    return [SK_TARGETS[(i + rot) % len(SK_TARGETS)] for i in range(n)]
+
+
+def sk_reversed(name):
+    return name.startswith(".ctors") or name.startswith(".dtors")
+
+
+def data_object_sk(arch, words):
+    o = g.ElfObject(arch)
+    tgt = o.section(".data.tgt", flags=A | W, align=8, data=bytes(range(64)))
+    o.symbol("exp_local", section=tgt, value=16, vis=g.STV_HIDDEN)
+    refs = {"lfunc": (o.symbol("lfunc_t", vis=g.STV_HIDDEN), 0), "func": (o.symbol("func_t"), 0),
+            "ifunc": (o.symbol("ifunc_t"), 0), "weak": (o.symbol("weak_u", bind=g.STB_WEAK), 0),
+            "local": (o.section_symbol(tgt), 16)}
+    k = 0
+    for j, (name, ty, fl, n) in enumerate(SK[words[1]]):
+        sec = o.section(name, type=ty, flags=A | W | fl, align=8, data=bytes(8 * n),
+                        entsize=8 if ty != g.SHT_PROGBITS else 0)
+        o.symbol("sk_start%d" % j, section=sec, value=0, vis=g.STV_HIDDEN,
+                 type=g.STT_TLS if fl & T else g.STT_NOTYPE)
+        for i, t in enumerate(sk_targets(words, j, n)):
+            sym, addend = refs[t]
+            o.reloc(sec, 8 * i, R_ABS64[arch], sym, addend)
+            if len(SK[words[1]]) == 1 and not fl & T:
+                # labels for the native self-check (single, unreversed section kinds only)
+                sfx = "" if k == 0 else str(k + 1)
+                o.symbol("aw_word" + sfx, section=sec, value=8 * i, size=8, type=g.STT_OBJECT,
+                         vis=g.STV_HIDDEN)
+                o.symbol("exp_target" + sfx, section=tgt, value=16, vis=g.STV_HIDDEN)
+                k += 1
+    if k == 0:      # the code object declares these two (gas emits them even when unreferenced)
+        o.symbol("aw_word", section=tgt, value=0, vis=g.STV_HIDDEN)
+        o.symbol("exp_target", section=tgt, value=0, vis=g.STV_HIDDEN)
+    o.note_gnu_stack()
+    return o.to_bytes()
+
+
+def judge_sk(path, words, linker):
+    """Oracle for a section-kind member. The expected slot -> target map comes from the generator:
+    input order, reversed inside .ctors* / .dtors* input sections for linkers that merge them into
+    .init_array / .fini_array (GNU ld - the referee - and wild; lld keeps them forward)."""
+    e = elfread.Elf(path)
+    syms = {s.name: s for s in e.symbols(".symtab")}
+    tls = next((p for p in e.segments if p.p_type == elfread.PT_TLS), None)
+    abs_words, fixed_words, expect = [], [], []
+    for j, (name, _ty, fl, n) in enumerate(SK[words[1]]):
+        st = syms.get("sk_start%d" % j)
+        if st is None:
+            return [("label-missing", "sk_start%d not in the output .symtab" % j)], {}
+        start = st.value
+        if fl & T:
+            if tls is None:
+                return [("label-missing", "no PT_TLS for the .tdata member")], {}
+            start += tls.p_vaddr
+        tk = sk_targets(words, j, n)
+        if sk_reversed(name) and linker != "lld":
+            tk = tk[::-1]
+        for i, t in enumerate(tk):
+            (fixed_words if t == "weak" else abs_words).append(start + 8 * i)
+            expect.append((start + 8 * i, t, "%s[%d]" % (name, i)))
+    rep = pieimage.compare(e, abs_words, fixed_words, BASES)
+    problems = list(rep.problems)
+    want = {"lfunc": syms.get("lfunc_t"), "func": syms.get("func_t"), "local": syms.get("exp_local")}
+    ifunc = syms.get("ifunc_t")
+    values = []
+    if rep.img0 is not None:
+        for place, t, where in expect:
+            try:
+                v = rep.img0.u64(place)
+            except elfread.ElfError as ex:
+                problems.append(("slot-target", "%s: %s" % (where, ex)))
+                continue
+            values.append(v)
+            if t == "weak":
+                ok = v == 0
+            elif t == "ifunc":
+                # the resolver (IRELATIVE / symbolic) or a linker-made PLT entry for it
+                others = {s.value for s in want.values() if s is not None}
+                ok = v != 0 and v not in others and (
+                    (ifunc is not None and v == ifunc.value) or any(
+                        p.p_type == 1 and p.p_flags & 1 and p.p_vaddr <= v < p.p_vaddr + p.p_memsz
+                        for p in e.segments))
+            else:
+                ok = want[t] is not None and v == want[t].value
+            if not ok:
+                problems.append(("slot-target", "%s at %#x must hold %s%s but holds %#x at base 0"
+                                 % (where, place, t, "" if t in ("weak", "ifunc") or want[t] is None
+                                    else " = %#x" % want[t].value, v)))
+    cover = [(t, rep.cover.get(p, [])) for p, t, _w in expect]
+    return problems, {"n_relr": rep.n_relr, "n_rela": rep.n_rela, "cover": cover,
+                      "relr_sorted": rep.relr_sorted, "got_words": len(rep.got_words),
+                      "slots": len(expect)}
+
+
 def link_argv(arch, kind, relr, linker="wild"):
     a = []
     if arch == "aarch64":
@@ -219,12 +359,16 @@ def _wdir():
     return d
 
 
-def is_native(arch, kind):
-    return arch == "x86_64" and kind == "pie"
+def is_native(arch, kind, words=None):
+    return arch == "x86_64" and kind == "pie" and not (
+        words is not None and is_sk(words) and words[1] not in SK_NATIVE)
 
 
 def write_inputs(d, arch, kind, words):
-    check = [w[3] for w in words] if is_native(arch, kind) else None
+    if is_sk(words):
+        check = sk_targets(words, 0, SK[words[1]][0][3]) if is_native(arch, kind, words) else None
+    else:
+        check = [w[3] for w in words] if is_native(arch, kind) else None
     co = code_object(arch, check)
     dst = os.path.join(d, "code.o")
     if isinstance(co, bytes):
@@ -241,11 +385,13 @@ def write_inputs(d, arch, kind, words):
             import shutil
             shutil.copyfile(co, dst)
     with open(os.path.join(d, "data.o"), "wb") as f:
-        f.write(data_object(arch, words))
+        f.write(data_object_sk(arch, words) if is_sk(words) else data_object(arch, words))
 
 
-def judge(path, words):
+def judge(path, words, linker="wild"):
     """Run the oracle on one output. -> (problems, observed dict)."""
+    if is_sk(words):
+        return judge_sk(path, words, linker)
     e = elfread.Elf(path)
     syms = {s.name: s.value for s in e.symbols(".symtab")}
     abs_words, fixed_words, obs = [], [], []
@@ -296,7 +442,7 @@ def job(item):
             problems, obs = judge(out, words)
         except elfread.ElfError as ex:
             problems = [("output-malformed", str(ex))]
-        if run_native and is_native(arch, kind):
+        if run_native and is_native(arch, kind, words):
             nat = native(out)
     refres = []
     for ref in refs:
@@ -311,10 +457,10 @@ def job(item):
         rprob, robs, rnat = [], {}, None
         if p.returncode == 0:
             try:
-                rprob, robs = judge(rout, words)
+                rprob, robs = judge(rout, words, ref)
             except elfread.ElfError as ex:
                 rprob = [("output-malformed", str(ex))]
-            if run_native and is_native(arch, kind) and ref == "ld":
+            if run_native and is_native(arch, kind, words) and ref == "ld":
                 rnat = native(rout)
         refres.append((ref, p.returncode, rprob, robs, rnat,
                        p.stderr.decode("utf-8", "replace")[-300:]))
@@ -322,12 +468,19 @@ def job(item):
 
 
 def describe(arch, kind, relr, words):
+    if is_sk(words):
+        return {"arch": arch, "kind": kind, "relr": RELR[relr] or "off",
+                "section_kind": words[1],
+                "input_sections": [{"name": name, "words_refer_to": sk_targets(words, j, n)}
+                                   for j, (name, _ty, _fl, n) in enumerate(SK[words[1]])]}
     return {"arch": arch, "kind": kind, "relr": RELR[relr] or "off",
             "words": [{"probe_section_align": a, "pad_bytes": p, "offset_in_section": o,
                        "refers_to": t} for a, p, o, t in words]}
 
 
 def cell_name(words):
+    if is_sk(words):
+        return "sk-%s.r%d" % (words[1], words[2])
     return "+".join("a%d.p%d.o%d.%s" % w for w in words)
 
 
@@ -339,6 +492,15 @@ def members(chk):
             for kind in KINDS:
                 for relr in relrs:
                     out.append((arch, kind, relr, ((al, pad, off, t),)))
+    # section-kind family (both tiers)
+    for arch in ("x86_64", "aarch64"):
+        for sk in SK:
+            for rot in SK_ROTATIONS:
+                for kind in KINDS:
+                    if kind == "shared" and sk in SK_EXE_ONLY:
+                        continue
+                    for relr in ("off", "z"):
+                        out.append((arch, kind, relr, ("sk", sk, rot)))
     if chk.thorough:
         # two-word programs: every ordered pair of (pad, offset-parity) cells of alignment-1 probe
         # sections x {local, func} (one allocation may cancel the other's mismatch)
@@ -356,7 +518,8 @@ def replay(path):
     with open(path) as fh:
         rep = json.load(fh)["replay"]
     arch, kind, relr = rep["arch"], rep["kind"], rep["relr"]
-    words = tuple(tuple(w) for w in rep["words"])
+    words = tuple(rep["words"]) if rep["words"] and rep["words"][0] == "sk" else \
+        tuple(tuple(w) for w in rep["words"])
     keep = "/dev/shm/c09-replay"
     os.makedirs(keep, exist_ok=True)
     write_inputs(keep, arch, kind, words)
@@ -372,7 +535,7 @@ def replay(path):
         for k, m in problems:
             print("  %s: %s" % (k, m))
             bad = True
-        if is_native(arch, kind):
+        if is_native(arch, kind, words):
             ok, detail, _b1, _b2 = native(os.path.join(keep, "out"))
             print("native:", "OK" if ok else detail)
             bad = bad or not ok
@@ -382,7 +545,7 @@ def replay(path):
                        stdout=subprocess.PIPE, stderr=subprocess.PIPE)
     print("%s rc=%d %s" % (ref, p.returncode, p.stderr.decode()[-200:]))
     if p.returncode == 0:
-        print("  oracle on its output:", judge(os.path.join(keep, "ref"), words))
+        print("  oracle on its output:", judge(os.path.join(keep, "ref"), words, ref))
     print("REPRODUCED" if bad else "not reproduced")
     return 1 if bad else 0
 
@@ -430,7 +593,51 @@ def oracle_selftest(base):
         got = {k for k, _ in judge(path, words)[0]}
         if want not in got:
             missed.append("%s (oracle said %s)" % (want, sorted(got)))
-    return len(cases), missed
+    n2, missed2 = selftest_moved_words(d)
+    return len(cases) + n2, missed + missed2
+
+
+def selftest_moved_words(d):
+    """Sensitivity to relocations that describe the wrong slots of a section whose words the
+    linker moves (.ctors merged into .init_array, reversed): GNU ld's correct output of the
+    `ctors` member is made inconsistent in the two ways such a defect shows -
+      rela: every RELA place inside the region is mirrored (the bytes stay),
+      relr: the words of the region are mirrored (the RELR table stays) -
+    and in both the oracle must object."""
+    words = ("sk", "ctors", 2)      # rotation 2: no relocated word sits on the middle slot,
+    n = SK["ctors"][0][3]           # which a reversal leaves in place
+    missed, count = [], 0
+    for relr, mode in (("off", "rela"), ("z", "relr"), ("z", "rela")):
+        write_inputs(d, "x86_64", "shared", words)
+        p = subprocess.run(["ld", *link_argv("x86_64", "pie", relr, linker="ld"), "-o", "mv.out"],
+                           cwd=d, stdout=subprocess.PIPE, stderr=subprocess.PIPE)
+        path = os.path.join(d, "mv.out")
+        if p.returncode != 0:
+            return count, ["GNU ld failed: " + p.stderr.decode()[-200:]]
+        if judge(path, words, "ld")[0]:
+            return count, ["pristine ctors output: %r" % (judge(path, words, "ld")[0],)]
+        buf = bytearray(open(path, "rb").read())
+        e = elfread.Elf(data=bytes(buf))
+        start = next(s.value for s in e.symbols(".symtab") if s.name == "sk_start0")
+        lo, hi = start, start + 8 * n
+        if mode == "rela":
+            rela = e.section(".rela.dyn")
+            for i in range(rela.sh_size // 24):
+                off = rela.sh_offset + 24 * i
+                place = struct.unpack_from("<Q", buf, off)[0]
+                if lo <= place < hi:
+                    struct.pack_into("<Q", buf, off, lo + (hi - 8) - place)
+        else:
+            fo = e.vaddr_to_offset(lo)
+            ws = [bytes(buf[fo + 8 * i:fo + 8 * i + 8]) for i in range(n)]
+            buf[fo:fo + 8 * n] = b"".join(ws[::-1])
+        with open(path, "wb") as f:
+            f.write(buf)
+        got = {k for k, _ in judge(path, words, "ld")[0]}
+        count += 1
+        if not got & {"slot-target", "fixed-reloc", "uncovered", "relr-stray"}:
+            missed.append("moved-words/%s/%s (oracle said %s)" % (relr, mode, sorted(got)))
+    return count, missed
 
 
 def main():
@@ -450,7 +657,14 @@ def main():
     items = []
     for i, (arch, kind, relr, words) in enumerate(mem):
         refs = []
-        if relr != "pdr" or arch == "aarch64":
+        if is_sk(words):
+            # the slot-order expectation is calibrated on every x86-64 member by GNU ld (the
+            # referee) and on lld (which keeps .ctors/.dtors forward) on one rotation
+            if arch == "x86_64":
+                refs = ["ld"] + (["lld"] if chk.thorough and words[2] == 0 else [])
+            elif chk.thorough or words[2] == 0:
+                refs = ["lld"]
+        elif relr != "pdr" or arch == "aarch64":
             if arch == "x86_64":
                 # GNU ld: every x86-64 member in the thorough tier, every 4th in the quick tier
                 # (and every member whose alignment-1 probe section is pushed to an odd address)
@@ -463,7 +677,7 @@ def main():
         import random
         random.Random(chk.seed).shuffle(items)
     st = dict(links=0, accepted=0, rejected=0, native_members=0, native_ok=0, native_runs=0,
-              distinct_bases=0, relr_unsorted=0)
+              distinct_bases=0, relr_unsorted=0, sk_links=0, sk_accepted=0, sk_slots=0)
     refst = {"ld": dict(links=0, accepted=0, flagged=0, rejected=0, native_ok=0, native_members=0),
              "lld": dict(links=0, accepted=0, flagged=0, rejected=0)}
     ref_flags, rejected, cells, parity_cells, cover_hist = {}, {}, set(), set(), {}
@@ -490,21 +704,32 @@ def main():
             twin[(arch, kind, words)] = obs.get("parity")
     for arch, kind, relr, words, rc, msg, problems, obs, nat, refres in results:
         st["links"] += 1
+        st["sk_links"] += is_sk(words)
         rep = {"arch": arch, "kind": kind, "relr": relr, "words": words,
                "describe": describe(arch, kind, relr, words)}
-        tkinds = "+".join(w[3] for w in words)
+        sk = is_sk(words)
+        tkinds = "sk-" + words[1] if sk else "+".join(w[3] for w in words)
         ref_ok = "not run on this member in this tier" if not refres else \
             "; ".join("%s: %s" % (r, "links it, its output passes the oracle" if rrc == 0 and not rprob
                                   else "rc=%s %s" % (rrc, rprob)) for r, rrc, rprob, *_ in refres)
         if rc == 0:
             st["accepted"] += 1
-            for (sp, wp), w in zip(obs.get("parity", []), words):
-                parity_cells.add((arch, w[0], sp, wp))
-                cells.add((arch, kind, relr, w[0], sp, w[2], w[3]))
-            for cov, w in zip(obs.get("cover", []), words):
-                hk = "%s:%s:%s" % (w[3], "relr-on" if relr != "off" else "relr-off",
-                                   "+".join(cov) or "none")
-                cover_hist[hk] = cover_hist.get(hk, 0) + 1
+            if sk:
+                st["sk_accepted"] += 1
+                st["sk_slots"] += obs.get("slots", 0)
+                cells.add((arch, kind, relr, "sk", words[1], words[2]))
+                for t, cov in obs.get("cover", []):
+                    hk = "sk:%s:%s:%s" % (t, "relr-on" if relr != "off" else "relr-off",
+                                          "+".join(cov) or "none")
+                    cover_hist[hk] = cover_hist.get(hk, 0) + 1
+            else:
+                for (sp, wp), w in zip(obs.get("parity", []), words):
+                    parity_cells.add((arch, w[0], sp, wp))
+                    cells.add((arch, kind, relr, w[0], sp, w[2], w[3]))
+                for cov, w in zip(obs.get("cover", []), words):
+                    hk = "%s:%s:%s" % (w[3], "relr-on" if relr != "off" else "relr-off",
+                                       "+".join(cov) or "none")
+                    cover_hist[hk] = cover_hist.get(hk, 0) + 1
             if not obs.get("relr_sorted", True):
                 st["relr_unsorted"] += 1
             for k in sorted({k for k, _ in problems}):
@@ -523,7 +748,11 @@ def main():
                     chk.violation("native:%s:%s" % ("relr" if relr != "off" else "norelr", tkinds),
                                   "[%s] self-check failed under the system loader: %s"
                                   % (cell_name(words), detail), rep)
-            if len(samples) < 3 and relr != "off" and words[0][0] == 1 and words[0][1] == 1:
+            if sk and relr != "off" and words[1] == "ctors.N" and not any(
+                    "section_kind" in x for x in samples):
+                samples.append(dict(rep["describe"], observed=obs))
+            if not sk and len(samples) < 4 and relr != "off" and words[0][0] == 1 and \
+                    words[0][1] == 1:
                 samples.append(dict(rep["describe"], observed=obs))
         elif rc == 1:
             st["rejected"] += 1
@@ -532,8 +761,8 @@ def main():
                         [l.strip() for l in first if l.strip()][-1])
             if ALLOC_ERR.search(msg):
                 par = twin.get((arch, kind, words))
-                odd_sec = any(sp for sp, _wp in par) if par else any(
-                    w[0] == 1 and w[1] == 1 for w in words)
+                odd_sec = not sk and (any(sp for sp, _wp in par) if par else any(
+                    w[0] == 1 and w[1] == 1 for w in words))
                 key = "relr-parity:odd-section-address" if (relr != "off" and odd_sec) else \
                     "alloc-error:%s:%s:%s" % (kind, "relr" if relr != "off" else "norelr", tkinds)
                 chk.violation(key, "[%s %s %s %s] wild fails with an allocation-accounting "
@@ -581,6 +810,9 @@ def main():
         "capped": "wall cap hit after %d of %d members" % (len(results), len(items)) if capped
                   else None,
         "members_planned": len(items),
+        "section_kind_family": {"members": st["sk_links"], "accepted": st["sk_accepted"],
+                                "address_slots_judged": st["sk_slots"], "kinds": list(SK),
+                                "rotations": list(SK_ROTATIONS)},
         "wild_links": st["links"], "wild_accepted": st["accepted"], "wild_rejected": st["rejected"],
         "wild_rejections_by_message": {k: len(v) for k, v in sorted(rejected.items())},
         "observed_parity_cells": sorted("%s:align%d:section-%s:place-%s"
@@ -591,7 +823,7 @@ def main():
         "native_members": st["native_members"], "native_ok": st["native_ok"],
         "native_runs": st["native_runs"], "native_members_with_two_distinct_bases":
             st["distinct_bases"],
-        "oracle_selftest": "%d corruptions of a GNU ld output's dynamic relocations, all detected"
+        "oracle_selftest": "%d corruptions of GNU ld outputs' dynamic relocations / moved words, all detected"
                            % n_self,
         "calibration": refst,
         "subprocesses": st["native_runs"] + refst["ld"]["links"] + refst["lld"]["links"]
